@@ -26,12 +26,14 @@ try:
 finally:
     sh('git -C /repo worktree remove --force %s' % wt)
 meta['confirmed'] = bool(meta.get('applies_cleanly') and meta.get('baseline_ok') and meta.get('demo_without_change_exit') == 0 and meta.get('demo_with_change_exit') not in (0, None))
-# run our check against it
+# run our check against it (exclusive lock on /repo: no other check may read it while it is patched)
+import fcntl
+lockf = open('/verif/.repo.lock', 'w'); fcntl.flock(lockf, fcntl.LOCK_EX)
 assert sh('git -C /repo status --porcelain').stdout.strip() == '', '/repo not clean'
 t0 = time.time()
 try:
     a = sh('git -C /repo apply %s/patch.diff' % src)
-    c = sh('/verif/check %s --tier quick' % prop, cwd='/verif')
+    c = sh('VERIF_NOLOCK=1 /verif/check %s --tier quick' % prop, cwd='/verif')
     meta['check_exit'] = c.returncode
     meta['check_lines'] = [l for l in c.stdout.split('\n') if l.startswith(('VIOLATION', 'KNOWN-FINDING', 'PASS', 'FAIL', 'ERROR'))][:12]
     rp = [l.split('replay=')[1].split()[0] for l in c.stdout.split('\n') if l.startswith('VIOLATION')]
@@ -40,6 +42,7 @@ try:
         except Exception as e: meta['first_replay'] = str(e)
 finally:
     sh('git -C /repo checkout -- .')
+    fcntl.flock(lockf, fcntl.LOCK_UN)
 meta['check_wall_s'] = round(time.time() - t0)
 meta['detected'] = meta.get('check_exit') == 1
 os.makedirs(out, exist_ok=True)
